@@ -3,6 +3,11 @@ from . import cli, grounded, accept, provenance
 
 
 def run(ctx):
+    from . import lazyvars as _lazyvars
+    _lazyvars.rule_lazy_variable_counter(ctx)
+    from . import layout as _layout
+    _layout.rule_variable_layout(ctx)
+    _layout.rule_clause_templates(ctx)  # the clauses each encoder mode issues are the reference encoding's
     accept.rule_no_extension_only_stable(ctx)
     from . import splits
     splits.rule_split_contents(ctx)
